@@ -20,6 +20,10 @@ static const char *lg_profile = "total";
  * (0 = never): on the pinned tree two blank sections make it pass NULL to memcmp (UBSan abort),
  * which would otherwise kill a large share of the workers; see known_findings.d/legacy.json */
 static unsigned lg_nodup_blank_rate = 1500;
+/* 0: leave out the bin == NULL / s == NULL variants of ares_buf_parse_dns_binstr / ares_expand_string
+ * (they leak on the pinned tree, see known_findings.d/legacy.json; a libFuzzer process stops at its
+ * first report, so the fuzz target leaves them to the deterministic profile) */
+static int lg_skip_mode_calls = 1;
 
 static const char *lg_hex(const uint8_t *d, size_t len)
 {
